@@ -41,7 +41,8 @@ from vivarium.library.topology import (
     inverse_topology,
     normalize_path,
 )
-from vivarium.library.dict_utils import apply_func_to_leaves
+from vivarium.library.dict_utils import (
+    apply_func_to_leaves, deep_copy_internal, deep_merge)
 from vivarium.core.types import (
     HierarchyPath, Topology, State, Update, Processes, Steps,
     Flow, Schema)
@@ -525,7 +526,12 @@ class Engine:
                 self.steps = composite['steps']
                 self.flow = composite['flow']
                 self.topology = composite['topology']
-                self.initial_state = composite['state'] or self.initial_state
+                # the composite's own state, completed (and, where both
+                # name a variable, overridden) by the initial state given
+                # to the engine
+                self.initial_state = deep_merge(
+                    deep_copy_internal(composite['state'] or {}),
+                    self.initial_state)
             else:
                 raise ValueError(
                     'load either composite, store, or '
